@@ -25,9 +25,15 @@ def run(ctx):
         ctx.violation(dict(kind="proof-obligation-broken", theorem_or_file=pr["broken"], bad_axioms=pr["bad_axioms"], log=pr["log"][-2000:]),
                       "proof obligation no longer checks: %s" % (pr["broken"] or pr["bad_axioms"]), found_input=False)
     ccases, ctie, cprop = _bo.run_columns(ctx, ctx.n(3000, 60000))
+    scases, stie, sprop = _bo.run_seq(ctx, ctx.n(3000, 60000))
+    for c in sorted(sprop, key=lambda c: len(c["desc"]["segs"]))[:2]:
+        ctx.violation(dict(kind="property-fails-on-implementation", what="after mergeOverlapping ran on every member of every bundle of coincident segments (in the recorded order) the surviving segments' windings are not the totals below them / their result membership is not the region boundary",
+                           seed=ctx.seed, index=c["i"], mode="seq", **c["desc"]), "sweep fields wrong after merging coincident segments in the order %s" % c["desc"]["merges"])
+    cprop = cprop + sprop
+    ctie = ctie + stie
     cases, live, bad, stats = _bo.run_bo(ctx, ctx.n(100, 3000), "bo")
     known = [f for f in vlib.known_findings("C01") if f.get("status") == "open"]
-    for c in cprop[:2]:
+    for c in [c for c in cprop if c["fam"].startswith("col-")][:2]:
         ctx.violation(dict(kind="property-fails-on-implementation", what="sweep fields of the real computeSweepFields/InResult violate the prefix-sum / region-boundary specification",
                            seed=ctx.seed, index=c["i"], mode="col", **c["desc"]), "sweep fields wrong on a status column")
     bad.sort(key=lambda t: len(t[0]["desc"].get("P", "")) + len(t[0]["desc"].get("Q", "")))
@@ -60,6 +66,7 @@ def run(ctx):
         rule="columns: one evaluation per synthetic status column (distinct by term, non-trivial = at least two segments); end to end: one evaluation per guarded sample point of one (op, P, Q) result; distinct end-to-end = distinct (op, P, Q)",
         programs=len(live), disagreements_checked=len(bad) + len(ctie) + len(cprop), traces_validated_against_impl=len(ccases),
         columns=len(ccases), column_families=vlib.histogram([c["fam"] for c in ccases]),
+        merge_sequences=len(scases), merge_sequence_families=vlib.histogram([c["fam"] for c in scases]),
         end_to_end=dict(results=len(live), crashed=len(cases) - len(live), families=vlib.histogram([c["fam"] for c in live]), **stats),
         theorems=pr["theorems"], assumptions_per_theorem=pr["assumptions"],
         samples=[dict(op=c["desc"]["op"], P=c["desc"]["P"], Q=c["desc"].get("Q"), R=c["desc"].get("R")) for c in live[:2]] + [ccases[0]["desc"]] if ccases else [],
